@@ -124,6 +124,10 @@ func factsFromCtx(c context.Context) facts {
 	if rs, ok := safely(func() []restlicodec.Reader { return restli.GetEntitySegmentsFromContext(c) }); ok {
 		for _, r := range rs {
 			f.keys = append(f.keys, r.String())
+			// and read it, as a filter that looks at a key does: readers are cursors, and what a
+			// filter consumes must not be missing for the next filter or the method
+			r := r
+			safely(func() string { s, _ := r.ReadString(); return s })
 		}
 	}
 	if n, ok := safely(func() string { return restli.GetFinderNameFromContext(c) }); ok {
